@@ -97,6 +97,7 @@ func (mdb *MassDBV1) StopPlot() chan error {
 	go func() {
 		// StopPlot can be called by a Stop request and by the keeper's
 		// shutdown monitor at the same time: close the channel only once
+		verifhook.Point("plot.stopping", mdb)
 		mdb.stopLock.Lock()
 		if atomic.LoadInt32(&mdb.plotting) != 0 {
 			select {
